@@ -71,6 +71,8 @@ def run(ctx):
     rnd = random.Random(ctx.seed)
     p = progs.Prog()
     progs.random_program(p, 128, ctx.seed, rnd, 8, 400 if thorough else 120)
+    p.lines.pop()          # (re-open the segment) inputs whose combination is a rounding tie of the modulus switch: a tie must not be broken by a draw from the generator
+    progs.tie_inputs(p, rnd); p.end()
     rc, err, pf, tf = gates.exec_program(ctx, p, "spqlios-fma", "optim", "frame")
     if rc != 0:
         ctx.violation("gate program died rc=%s %s" % (rc, err[-200:]), key="h_gates crash frame")
